@@ -72,6 +72,18 @@ func (fc *FuncCtx) load(fr *Frame, st *State, lv *LVal, pos token.Pos) Val {
 		return Val{T: v}
 	case lvGlobal:
 		if tb := fc.p.tableOfGlobal(lv.Global); tb != nil {
+			if tb.IsMap {
+				fc.linkMapTable(st, tb)
+				return Val{T: tb.Ref}
+			}
+			if tb.nested() {
+				name := "G:" + lv.Global.Pkg.Pkg.Path() + "." + lv.Global.Name()
+				fc.p.registerHeap(name, SSlice)
+				v := st.H(fc.p, name)
+				st.assume(typeInv(lv.Typ, v, st.alloc))
+				fc.linkNestedTable(st, tb, v)
+				return Val{T: v}
+			}
 			return Val{T: tb.Ref}
 		}
 		s := sortOf(lv.Typ)
@@ -174,7 +186,24 @@ func (fc *FuncCtx) execInstr(fr *Frame, st *State, ins ssa.Instruction) {
 		addr := fc.value(fr, x.Addr)
 		val := fc.value(fr, x.Val)
 		if addr.LV == nil {
-			// store of a whole struct/array value through a struct pointer
+			// store of a whole struct value (a tuple of its scalar fields) into a struct object: field by field
+			if sty, ok := x.Val.Type().Underlying().(*types.Struct); ok && addr.T != nil && val.Tup != nil && len(val.Tup) == sty.NumFields() {
+				fc.addObl(fr, st, "nil", fc.srcOf(x), Neq(addr.T, IntLit(0)), x.Pos(), "nil pointer dereference")
+				for i := 0; i < sty.NumFields(); i++ {
+					f := sty.Field(i)
+					if val.Tup[i].T == nil {
+						if sortOf(f.Type()) != nil {
+							unsupp("store of a struct value with an unknown field %s at %s", f.Name(), fc.p.pos(x.Pos()))
+						}
+						continue
+					}
+					h := fc.p.fieldHeap(x.Val.Type(), f)
+					hh := st.H(fc.p, h)
+					_, el, _ := hh.Sort.arrayParts()
+					st.setH(h, Store(hh, addr.T, coerceT(val.Tup[i].T, el)))
+				}
+				return
+			}
 			unsupp("store of aggregate value at %s", fc.p.pos(x.Pos()))
 		}
 		fc.store(fr, st, addr.LV, val, x.Pos())
@@ -249,6 +278,15 @@ func (fc *FuncCtx) execInstr(fr *Frame, st *State, ins ssa.Instruction) {
 		fc.addObl(fr, st, "makeslice", fc.srcOf(x), ok, x.Pos(), "make: length negative or larger than capacity")
 		st.assume(ok)
 		elT := x.Type().Underlying().(*types.Slice).Elem()
+		if fc.contract != nil && fc.contract.MakeLimit {
+			// opt-in (contract option `makelimit`): the runtime panics ("makeslice: len out of range") when
+			// cap * sizeof(elem) exceeds maxAlloc = 2^48 bytes (linux/amd64); sizes that come from the input must be bounded first.
+			if sz := types.SizesFor("gc", "amd64").Sizeof(elT); sz > 0 {
+				lim := Le(Mul(IntLit(sz), cp), IntLit(1<<48))
+				fc.addObl(fr, st, "makeslice-size", fc.srcOf(x), lim, x.Pos(), "make: cap * element size exceeds the allocation limit (2^48 bytes)")
+				st.assume(lim)
+			}
+		}
 		ref := fc.newRef(st)
 		if s := sortOf(elT); s != nil {
 			h := fc.p.elemHeap(elT)
@@ -285,6 +323,12 @@ func (fc *FuncCtx) execInstr(fr *Frame, st *State, ins ssa.Instruction) {
 		st.setH(l, Store(hl, m, Add(Select(hl, m), Ite(was, IntLit(0), IntLit(1)))))
 		st.setH(d, Store(hd, m, Store(Select(hd, m), k, True)))
 		st.setH(vv, Store(hv, m, Store(Select(hv, m), k, coerceT(v.T, sortOf(mt.Elem())))))
+	case *ssa.Field:
+		sv := fc.value(fr, x.X)
+		if sv.Tup == nil || x.Field >= len(sv.Tup) {
+			unsupp("field of a struct value that is not tracked at %s", fc.p.pos(x.Pos()))
+		}
+		fr.regs[x] = sv.Tup[x.Field]
 	case *ssa.Extract:
 		t := fc.value(fr, x.Tuple)
 		if t.Tup == nil || x.Index >= len(t.Tup) {
@@ -370,6 +414,7 @@ func (fc *FuncCtx) execInstr(fr *Frame, st *State, ins ssa.Instruction) {
 		fc.goStmt(fr, st, x)
 	case *ssa.Send:
 		fc.ghostAdd(st, "sent", 1)
+		fc.chanInv(fr, st, x.Chan.Type().Underlying().(*types.Chan).Elem(), fc.value(fr, x.X), true, x.Pos())
 	case *ssa.Range:
 		fc.rangeInit(fr, st, x)
 	case *ssa.Next:
@@ -495,12 +540,20 @@ func (fc *FuncCtx) unop(fr *Frame, st *State, x *ssa.UnOp) {
 	case token.ARROW:
 		// channel receive: an arbitrary value of the element type; ghost counter
 		fc.ghostAdd(st, "recv", 1)
+		elT := x.X.Type().Underlying().(*types.Chan).Elem()
 		if x.CommaOk {
 			v := fc.freshVal("recv", x.Type().(*types.Tuple).At(0).Type(), st)
 			ok := Fresh("recvok", SBool)
+			// the channel invariant holds for values actually received
+			st2 := st.clone()
+			st2.pc = True
+			fc.chanInv(fr, st2, elT, v, false, x.Pos())
+			st.assume(Implies(ok, st2.pc))
 			fr.regs[x] = Val{Tup: []Val{v, {T: ok}}}
 		} else {
-			fr.regs[x] = fc.freshVal("recv", x.Type(), st)
+			v := fc.freshVal("recv", x.Type(), st)
+			fc.chanInv(fr, st, elT, v, false, x.Pos())
+			fr.regs[x] = v
 		}
 	default:
 		unsupp("unary operator %s", x.Op)
@@ -824,6 +877,19 @@ func (fc *FuncCtx) convert(fr *Frame, st *State, x *ssa.Convert) {
 				fr.regs[x] = Val{T: SliceMk(ref, IntLit(0), n, n)}
 				return
 			}
+			if eb, ok := sl.Elem().Underlying().(*types.Basic); ok && eb.Kind() == types.Int32 {
+				// []rune(s): a fresh slice of k runes, k unknown with ceil(len(s)/4) <= k <= len(s)
+				// (a rune takes 1..4 bytes, every invalid byte decodes to one rune); contents unconstrained code points.
+				ref := fc.newRef(st)
+				h := fc.p.elemHeap(sl.Elem())
+				arr := Fresh("runes", ArraySort(SInt, SInt))
+				st.setH(h, Store(st.H(fc.p, h), ref, arr))
+				n := App("str_len", SInt, xv.T)
+				k := Fresh("runecount", SInt)
+				st.assume(And(Le(IntLit(0), k), Le(k, n), Le(n, Mul(IntLit(4), k))))
+				fr.regs[x] = Val{T: SliceMk(ref, IntLit(0), k, k)}
+				return
+			}
 		}
 		unsupp("conversion %s -> %s", x.X.Type(), x.Type())
 	case toBasic && tb.Info()&types.IsString != 0:
@@ -871,6 +937,39 @@ func (fc *FuncCtx) rangeInit(fr *Frame, st *State, x *ssa.Range) {
 		fr.regs[x] = Val{T: xv.T, LV: &LVal{Kind: -2, Typ: u}}
 	default:
 		unsupp("range over %s", x.X.Type())
+	}
+}
+
+// chanInv: channel invariants of the function under contract for channels of element type elT:
+// proved at a send (prove=true), assumed at a receive.
+func (fc *FuncCtx) chanInv(fr *Frame, st *State, elT types.Type, v Val, prove bool, pos token.Pos) {
+	if fc.contract == nil {
+		return
+	}
+	for _, ci := range fc.contract.ChanInvs {
+		if ci.Name != typeKeyShort(elT) && ci.Name != typeKey(elT) {
+			continue
+		}
+		env := fc.envFor(fr, st, nil, true)
+		if v.T != nil {
+			env.vars["elem"] = SVal{T: v.T, Typ: elT}
+		}
+		if sty, ok := elT.Underlying().(*types.Struct); ok && v.Tup != nil {
+			for k, fv := range v.Tup {
+				if fv.T != nil && k < sty.NumFields() {
+					env.vars["elem_"+sty.Field(k).Name()] = SVal{T: fv.T, Typ: sty.Field(k).Type()}
+				}
+			}
+		}
+		t, err := env.ElabBool(ci.Expr)
+		if err != nil {
+			panic(elabErr{fmt.Sprintf("%s:%d: chaninv: %v", fc.contract.File, ci.Line, err)})
+		}
+		if prove {
+			fc.addSplit(fr, st, "chaninv", ci.Name+":"+ci.Text, t, pos, "channel invariant holds for the value sent")
+		} else {
+			st.assume(t)
+		}
 	}
 }
 
